@@ -73,8 +73,23 @@ def _storms(n, rnd, nmax=4):
     return res
 
 
-def _run_files(outdir):
-    return sorted(glob.glob(os.path.join(outdir, "shard-*", "trace.ndjson")))
+def _run_files(outdir, nfiles=6):
+    """The shards' recordings, concatenated into at most nfiles files (one JVM each)."""
+    dirs = outdir if isinstance(outdir, list) else [outdir]
+    outdir = dirs[0]
+    shards = []
+    for d in dirs:
+        shards += sorted(glob.glob(os.path.join(d, "shard-*", "trace.ndjson")))
+    shards = [f for f in shards if os.path.getsize(f) > 0]
+    k = min(nfiles, len(shards))
+    res = []
+    for i in range(k):
+        p = os.path.join(outdir, "all-%02d.ndjson" % i)
+        with open(p, "w") as out:
+            for f in shards[i::k]:
+                out.write(open(f).read())
+        res.append(p)
+    return res
 
 
 def _infos(outdir):
@@ -100,36 +115,73 @@ def _key(mode, run, bad):
     return "-".join(parts)
 
 
-def _judge(mode, cfg, files, v, lookup, cov):
-    """Validate recorded runs; every rejection / invariant violation is a violation."""
+def _isolated_rerun(mode, cfg, case, h, n):
+    """Run one case / plan alone (nothing else in the process) and validate it.  True = rejected again."""
+    d = os.path.join(vlib.scratch(), "c17iso-%s-%d" % (mode, n))
+    if mode == "mbt":
+        _write_ndjson(os.path.join(d, "cases.ndjson"), [case])
+        vlib.run_driver(h, "c17_mbt", d, {"cases": os.path.join(d, "cases.ndjson"), "shards": 1, "par": 1})
+    else:
+        _write_ndjson(os.path.join(d, "plans.ndjson"), [case])
+        vlib.run_driver(h, "c17_" + mode, d, {"plans": os.path.join(d, "plans.ndjson"), "shards": 1, "par": 1})
+    r = vlib.validate_trace("TunnelTrace", cfg, _run_files(d, 1)[0])
+    return not r["accepted"]
+
+
+def _judge(mode, cfg, files, v, lookup, cov, h=None):
+    """Validate recorded runs; every rejection / invariant violation is a violation.  A run that
+    is rejected only at the outcome of its transfer (ret / fs: the code's own time-outs are
+    involved, and hundreds of transfers share the machine) is repeated once on its own and
+    counts only if it is rejected again."""
     if not files:
         raise vlib.Infra("no traces for " + mode)
     res = vlib.validate_traces("TunnelTrace", cfg, files, timeout=1500)
     nrej = 0
     for f, r in zip(files, res):
         cov["tv_states"] = cov.get("tv_states", 0) + r["distinct"]
-        if r["accepted"]:
-            continue
-        nrej += 1
-        ev = vlib.read_ndjson(f)
-        if r["violated"] not in (None, "postcondition"):
-            ls = re.findall(r"/\\ l = (\d+)", r["out"])
-            i = max(0, min(len(ev) - 1, (int(ls[-1]) - 2) if ls else 0))
-            run = vlib.run_of(ev, i)
-            rid = run[0].get("run")
-            v.violation("%s-invariant-%s" % (mode, r["violated"]),
-                        "invariant %s false on a recorded %s execution (run %s)" % (r["violated"], mode, rid),
-                        {"mode": mode, "case": lookup(rid), "run": run, "tlc_tail": r["out"][-2500:]})
-            continue
-        if r["hw"] is None:
-            raise vlib.Infra("trace validation of %s gave no high-water mark:\n%s" % (f, r["out"][-3000:]))
-        i = r["hw"] - 1
-        bad = ev[i] if i < len(ev) else {}
-        run = vlib.run_of(ev, min(i, len(ev) - 1))
-        rid = run[0].get("run")
-        v.violation(_key(mode, run, bad),
-                    "recorded %s execution (run %s) is not a behaviour of Tunnel: %s" % (mode, rid, vlib.explain_rejection(f, r["hw"], context=12)),
-                    {"mode": mode, "case": lookup(rid), "run": run, "rejected_event": bad})
+        rounds = 0
+        while not r["accepted"]:
+            # TLC stops at the first run it cannot consume: report it, cut it out, validate the rest
+            rounds += 1
+            nrej += 1
+            ev = vlib.read_ndjson(f)
+            if r["violated"] not in (None, "postcondition"):
+                ls = re.findall(r"/\\ l = (\d+)", r["out"])
+                i = max(0, min(len(ev) - 1, (int(ls[-1]) - 2) if ls else 0))
+                run = vlib.run_of(ev, i)
+                rid = run[0].get("run")
+                v.violation("%s-invariant-%s" % (mode, r["violated"]),
+                            "invariant %s false on a recorded %s execution (run %s)" % (r["violated"], mode, rid),
+                            {"mode": mode, "case": lookup(rid), "run": run, "tlc_tail": r["out"][-2500:]})
+            else:
+                if r["hw"] is None:
+                    raise vlib.Infra("trace validation of %s gave no high-water mark:\n%s" % (f, r["out"][-3000:]))
+                i = min(r["hw"] - 1, len(ev) - 1)
+                bad = ev[i]
+                run = vlib.run_of(ev, i)
+                rid = run[0].get("run")
+                reproduced = True
+                if h is not None and bad.get("e") in ("ret", "fs") and lookup(rid) is not None:
+                    cov["outcome_rejections_rerun"] = cov.get("outcome_rejections_rerun", 0) + 1
+                    if cov["outcome_rejections_rerun"] <= 12 and not _isolated_rerun(mode, cfg, lookup(rid), h, cov["outcome_rejections_rerun"]):
+                        cov["outcome_rejections_not_reproduced"] = cov.get("outcome_rejections_not_reproduced", 0) + 1
+                        cov.setdefault("not_reproduced_runs", []).append({"mode": mode, "run": run[-6:]})
+                        nrej -= 1
+                        reproduced = False
+                if reproduced:
+                    v.violation(_key(mode, run, bad),
+                                "recorded %s execution (run %s) is not a behaviour of Tunnel: %s" % (mode, rid, vlib.explain_rejection(f, r["hw"], context=12)),
+                                {"mode": mode, "case": lookup(rid), "run": run, "rejected_event": bad})
+            if rounds >= 5:
+                break
+            lo = i
+            while lo > 0 and ev[lo].get("e") != "reset":
+                lo -= 1
+            rest = ev[:lo] + ev[lo + len(run):]
+            if not rest:
+                break
+            _write_ndjson(f, rest)
+            r = vlib.validate_trace("TunnelTrace", cfg, f, timeout=1500)
     cov["trace_files_rejected"] = cov.get("trace_files_rejected", 0) + nrej
     return res
 
@@ -158,9 +210,18 @@ def _write_ndjson(path, items):
 
 
 def run(tier, v):
+    import time
     del _HUNG[:]
     quick = tier == "quick"
-    cov = {"samples": [], "exhaustive": True}
+    cov = {"samples": [], "exhaustive": True, "stage_wall_s": {}}
+    t_stage = [time.time()]
+
+    def stage(name):
+        now = time.time()
+        cov["stage_wall_s"][name] = round(now - t_stage[0], 1)
+        vlib.log("stage %s: %.1fs" % (name, now - t_stage[0]))
+        t_stage[0] = now
+
     rnd = random.Random(vlib.seed() * 7919 + 17)
 
     # ---- 1. design
@@ -183,6 +244,7 @@ def run(tier, v):
             if dead:
                 raise vlib.Infra("actions never fire in Tunnel_quick: %s" % dead)
 
+    stage("design_tlc")
     # ---- 2. spec -> impl: orderings
     g = vlib.tlc("TunnelGen", "TunnelGen_quick.cfg", timeout=1200, heap="3g", workers=8)
     if not g["ok"]:
@@ -211,6 +273,7 @@ def run(tier, v):
         c["id"] = n + 1
         c["seed"] = vlib.seed()
     byid = {c["id"]: c for c in cases}
+    stage("mbt_export")
     h = vlib.build_harness(["c17"])
     mdir = os.path.join(vlib.scratch(), "c17mbt")
     _write_ndjson(os.path.join(mdir, "cases.ndjson"), cases)
@@ -219,8 +282,10 @@ def run(tier, v):
     if len(infos) != len(cases):
         raise vlib.Infra("c17_mbt: %d cases, %d results" % (len(cases), len(infos)))
     _side_checks("mbt", infos, v, cov)
-    files = _run_files(mdir)
-    _judge("mbt", "TunnelTrace.cfg", files, v, lambda rid: byid.get(rid), cov)
+    stage("mbt_replay")
+    files = _run_files(mdir, 8)
+    _judge("mbt", "TunnelTrace.cfg", files, v, lambda rid: byid.get(rid), cov, h)
+    stage("mbt_validate")
     cov["mbt_cases_replayed"] = len(cases)
     cov["trace_events"] = s["events"]
     # expectation of the model vs what happened (timing drift, not a verdict)
@@ -233,7 +298,7 @@ def run(tier, v):
         if (i["act_tunnel"] != (c["act"] == "tunnel")) or i["adopted"] != c["adopted"] or [bool(x) for x in i["replied"]] != exp_rep:
             drift.append(i["id"])
     cov["mbt_expectation_drift"] = len(drift)
-    if len(drift) > max(10, len(cases) // 5):
+    if len(drift) > max(10, len(cases) // 5) and not v.violations:
         raise vlib.Infra("%d of %d replays diverged from the model's expectation (machine too slow for the one-second timer?)" % (len(drift), len(cases)))
     cov["storm_runs"] = sum(1 for c in cases if c.get("mode") == "storm")
     cov["port_passed_to_connector_matches_trigger"] = all(i["conn_port"] == i["port"] for i in infos if i.get("conn_calls"))
@@ -266,76 +331,96 @@ def run(tier, v):
     r3 = find_run(lambda run: has(run, e="act", tunnel=False) and has(run, e="fs", same=True) and has(run, e="cret")
                   and not any(x in ("right", "split") for x in run[0]["scripts"]))
     if not (r1 and r2 and r3):
-        raise vlib.Infra("self-test: recorded runs lack the needed shapes")
+        if not v.violations:
+            raise vlib.Infra("self-test: recorded runs lack the needed shapes")
+        cov["selftest_skipped"] = "recorded runs of a violating tree lack the needed shapes"
 
-    def write_run(run, name):
-        p = os.path.join(vlib.scratch(), name)
-        _write_ndjson(p, run)
-        return p
+    if r1 and r2 and r3:
+        def write_run(run, name):
+            p = os.path.join(vlib.scratch(), name)
+            _write_ndjson(p, run)
+            return p
 
-    def answered(ev):
-        ev = [dict(e) for e in ev]
-        for e in ev:
-            if e.get("e") == "got" and e.get("what") == "closed" and e.get("i", 0) > 1 and ev[0]["scripts"][e["i"] - 1] in ("wrong", "wrongid", "long", "flood"):
-                e["what"] = "reply"
-                break
-        return ev
+        def answered(ev):
+            ev = [dict(e) for e in ev]
+            for e in ev:
+                if e.get("e") == "got" and e.get("what") == "closed" and e.get("i", 0) > 1 and ev[0]["scripts"][e["i"] - 1] in ("wrong", "wrongid", "long", "flood"):
+                    e["what"] = "reply"
+                    break
+            return ev
 
-    def leaked(ev):
-        ev = [dict(e) for e in ev]
-        for e in ev:
-            if e.get("e") == "ign" and e.get("side") == "S":
-                e["e"], e["src"] = "fed", 0
-                break
-        return ev
+        def leaked(ev):
+            ev = [dict(e) for e in ev]
+            for e in ev:
+                if e.get("e") == "ign" and e.get("side") == "S":
+                    e["e"], e["src"] = "fed", 0
+                    break
+            return ev
 
-    def differs(ev):
-        ev = [dict(e) for e in ev]
-        for e in ev:
-            if e.get("e") == "fs":
-                e["same"] = False
-        return ev
+        def differs(ev):
+            ev = [dict(e) for e in ev]
+            for e in ev:
+                if e.get("e") == "fs":
+                    e["same"] = False
+            return ev
 
-    def second_feeder(ev):
-        ev = [dict(e) for e in ev]
-        k = next(i for i, e in enumerate(ev) if e.get("e") == "ign")
-        return ev[:k] + [{"e": "fed", "side": "S", "src": 2}] + ev[k:]
+        def second_feeder(ev):
+            ev = [dict(e) for e in ev]
+            k = next(i for i, e in enumerate(ev) if e.get("e") == "ign")
+            return ev[:k] + [{"e": "fed", "side": "S", "src": 2}] + ev[k:]
 
-    def drop_accept(ev):
-        k = next((i for i, e in enumerate(ev) if e.get("e") == "accept"), None)
-        return ev[:k] + ev[k + 1:] if k is not None else ev[1:]
+        def drop_accept(ev):
+            k = next((i for i, e in enumerate(ev) if e.get("e") == "accept"), None)
+            return ev[:k] + ev[k + 1:] if k is not None else ev[1:]
 
-    st["selftest_answer_to_stranger_rejected"] = vlib.selftest_reject("TunnelTrace", "TunnelTrace.cfg", write_run(r1, "st1.ndjson"), answered)
-    st["selftest_inband_leak_rejected"] = vlib.selftest_reject("TunnelTrace", "TunnelTrace.cfg", write_run(r2, "st2.ndjson"), leaked)
-    st["selftest_second_feeder_rejected"] = vlib.selftest_reject("TunnelTrace", "TunnelTrace.cfg", write_run(r2, "st2b.ndjson"), second_feeder)
-    st["selftest_fallback_differs_rejected"] = vlib.selftest_reject("TunnelTrace", "TunnelTrace.cfg", write_run(r3, "st3.ndjson"), differs)
-    st["selftest_dropped_accept_rejected"] = vlib.selftest_reject("TunnelTrace", "TunnelTrace.cfg", write_run(r2, "st4.ndjson"), drop_accept)
-    ok_unchanged = vlib.validate_trace("TunnelTrace", "TunnelTrace.cfg", write_run(r2, "st5.ndjson"))["accepted"]
-    st["selftest_unchanged_accepted"] = ok_unchanged
-    cov.update(st)
-    if not all(st.values()):
-        raise vlib.Infra("binding self-test failed: %s" % st)
+        from concurrent.futures import ThreadPoolExecutor
+        jobs = {
+            "selftest_answer_to_stranger_rejected": (r1, "st1.ndjson", answered),
+            "selftest_inband_leak_rejected": (r2, "st2.ndjson", leaked),
+            "selftest_second_feeder_rejected": (r2, "st2b.ndjson", second_feeder),
+            "selftest_fallback_differs_rejected": (r3, "st3.ndjson", differs),
+            "selftest_dropped_accept_rejected": (r2, "st4.ndjson", drop_accept),
+        }
 
+        def one(item):
+            name, (run_, fn, mut) = item
+            pth = os.path.join(vlib.scratch(), fn)
+            _write_ndjson(pth, mut(run_))
+            return name, not vlib.validate_trace("TunnelTrace", "TunnelTrace.cfg", pth)["accepted"]
+
+        with ThreadPoolExecutor(max_workers=6) as ex:
+            fut_ok = ex.submit(lambda: vlib.validate_trace("TunnelTrace", "TunnelTrace.cfg", write_run(r2, "st5.ndjson"))["accepted"])
+            for name, rej in ex.map(one, jobs.items()):
+                st[name] = rej
+            st["selftest_unchanged_accepted"] = fut_ok.result()
+        cov.update(st)
+        if not all(st.values()) and not v.violations:
+            raise vlib.Infra("binding self-test failed: %s" % st)
+
+    stage("selftest")
     # ---- 3. loopback TCP and one relay hop
     tdir = os.path.join(vlib.scratch(), "c17tcp")
     ts = vlib.run_driver(h, "c17_tcp", tdir, {"runs": 400 if quick else 6000, "shards": 8, "par": 24}, timeout=2400)
     tinfos = _infos(tdir)
     _side_checks("tcp", tinfos, v, cov)
     plans = {i["id"]: i.get("plan") for i in tinfos}
-    _judge("tcp", "TunnelTrace_tcp.cfg", _run_files(tdir), v, lambda rid: plans.get(rid), cov)
+    _judge("tcp", "TunnelTrace_tcp.cfg", _run_files(tdir), v, lambda rid: plans.get(rid), cov, h)
     cov["trace_events"] += ts["events"]
+    stage("tcp")
     nrel = 0
     rinfos = []
+    rdirs = []
     for b in range(2 if quick else 12):
         rdir = os.path.join(vlib.scratch(), "c17relay%d" % b)
         rs = vlib.run_driver(h, "c17_relay", rdir, {"runs": 48, "shards": 8, "par": 6, "id0": 1000 * (b + 1)}, timeout=1200)
-        ri = _infos(rdir)
-        rinfos += ri
-        rplans = {i["id"]: i.get("plan") for i in ri}
-        _judge("relay", "TunnelTrace_relay.cfg", _run_files(rdir), v, lambda rid, rp=rplans: rp.get(rid), cov)
+        rinfos += _infos(rdir)
+        rdirs.append(rdir)
         cov["trace_events"] += rs["events"]
         nrel += rs["runs"]
+    rplans = {i["id"]: i.get("plan") for i in rinfos}
+    _judge("relay", "TunnelTrace_relay.cfg", _run_files(rdirs, 4), v, lambda rid: rplans.get(rid), cov, h)
     _side_checks("relay", rinfos, v, cov)
+    stage("relay")
     cov["traces_validated_against_impl"] = len(cases) + len(tinfos) + nrel
     if _HUNG and not v.violations and not v.known_hit:
         raise vlib.Infra("%d run(s) did not finish within the watchdog and nothing else was observed: %s"
